@@ -25,7 +25,7 @@ type c15State struct {
 }
 
 func c15States(tier string) []c15State {
-	podSets := [][]string{{"web", "db", "cli2"}, {"web", "db"}, {"web-new", "db", "cli2"}, {"web", "db-plain", "cli2"}, {}}
+	podSets := [][]string{{"web", "db", "cli2"}, {"web", "db"}, {"web-new", "db", "cli2"}, {"web", "db-plain", "cli2"}, {}, {"web", "db-noip"}}
 	pols := []string{"in-podsel", "in-ipblock", "eg-podsel-port", "in-two-peers", "both", "in-denyall"}
 	if tier == "thorough" {
 		podSets = append(podSets, []string{"web", "db", "cli2-off"}, []string{"web", "db", "cli2", "noip"})
